@@ -945,7 +945,7 @@ pub fn run(em: &mut Em, rng: &mut Rng) {
         // extreme tolerances (and a small coordinate scale): the reduced form of the tolerance (`tol^2` for L2)
         // under- or overflows
         let mut ext = "";
-        if !tiny && kind != "generic" && kind != "zero_features" && rng.chance(1, 12) {
+        if !tiny && kind != "generic" && kind != "zero_features" && rng.chance(1, 5) {
             let (sc, t, e): (f64, f64, &'static str) = match (f32_, rng.below(4)) {
                 (false, 0) => (1.0, 1e-200, "tiny"),
                 (false, 1) => (1e-150, 1e-200, "tiny"),
